@@ -236,9 +236,28 @@ def correspond(ctx):
     prs = Presentation(); slide = prs.slides.add_slide(prs.slide_layouts[6])
     per_type = 10 if ctx.quick else 60
     wide = [27, 53] if ctx.quick else [27, 53, 703]
+    deck = []   # [chart, spec as it is now, chart type] of every chart on the current deck
+
+    def reopen_all():
+        """the whole deck - many charts, many embedded workbooks - saved and re-opened: every chart still agrees with ITS workbook"""
+        import io as _io
+        if not deck:
+            return
+        b = _io.BytesIO(); prs.save(b)
+        sl2 = Presentation(_io.BytesIO(b.getvalue())).slides[0]
+        charts2 = [sh.chart for sh in sl2.shapes if getattr(sh, "has_chart", False)]
+        mine = [sh.chart for sh in slide.shapes if getattr(sh, "has_chart", False)]
+        for ch, spec_, ct_ in deck:
+            k = next((i for i, c in enumerate(mine) if c is ch or c._chartSpace is ch._chartSpace), None)
+            if k is not None and k < len(charts2):
+                check(ctx, charts2[k], spec_, ct_, "deck-reopened(%d charts)" % len(mine), lines, impl, metas)
+        ctx.count("deck-reopen-passes")
+        del deck[:]
+
     for ti, (ct, kind) in enumerate(types):
         for rep in range(per_type):
             if len(slide.shapes) > 30:
+                reopen_all()
                 prs = Presentation(); slide = prs.slides.add_slide(prs.slide_layouts[6])
             if kind == "cat":
                 ns = None
@@ -256,6 +275,7 @@ def correspond(ctx):
                 continue
             ctx.count("type-" + kind); ctx.count("series-%s" % ("wide" if len(spec["series"]) > 26 else "narrow"))
             check(ctx, chart, spec, ct, "add", lines, impl, metas)
+            entry = [chart, spec, ct]; deck.append(entry)
             twin = None
             if rng.random() < 0.3 and spec["series"]:
                 # a second chart from the SAME data (equal workbook bytes when both are written within one second): what is
@@ -263,6 +283,7 @@ def correspond(ctx):
                 import copy as _copy
                 try:
                     twin = (slide.shapes.add_chart(ct, 0, 0, 100, 100, cd).chart, _copy.deepcopy(spec))
+                    deck.append([twin[0], twin[1], ct])
                     ctx.count("twin-chart-from-equal-data")
                 except Exception:  # noqa
                     twin = None
@@ -299,6 +320,7 @@ def correspond(ctx):
                 try:
                     chart.replace_data(cd2)
                     ctx.count("replace_data")
+                    entry[1] = spec2
                     check(ctx, chart, spec2, ct, "replace", lines, impl, metas)
                 except Exception as e:  # noqa
                     ctx.count("replace-raised(see C07)")
@@ -312,6 +334,7 @@ def correspond(ctx):
                     charts2 = [sh.chart for sh in sl2.shapes if getattr(sh, "has_chart", False)]
                     k = [sh.chart for sh in slide.shapes if getattr(sh, "has_chart", False)].index(twin[0]) if True else 0
                     check(ctx, charts2[k], twin[1], ct, "twin-after-sibling-changed+reopen", lines, impl, metas)
+    reopen_all()
     for n in [1, 2, 25, 26, 27, 51, 52, 53, 701, 702, 703, 704, 16384, 18278, 18279] + [rng.randint(1, 16384) for _ in range(40)]:
         from pptx.chart.xlsx import CategoryWorkbookWriter
         try:
